@@ -608,6 +608,25 @@ def l_spec( ctx ):
                 closest = max( Q, key=lambda q: sum( 1 for x, y in zip( sseq, [ a for a in q.atoms if a[0] != 'G' ] ) if spec_atom_match( x, y )))
                 res.bad( site_src, L( line ), '%s: spec layout [%s] is not accepted' % ( label, show_spec( sseq )),
                          'closest parser layout [%s]: a reference encoding would be mis-parsed' % show_seq( closest ), func=label )
+    # class-level producers against the spec: every layout <class>.produce can emit is a spec layout of that class
+    for key, sseqs in sorted( spec.MESSAGE_LAYOUTS.items(), key=lambda kv: str( kv[0] )):
+        if key[0] != 'class' or key[1] not in CODEC_PAIRS:
+            continue
+        fn_, P_, Q_, unknown_ = codec_layouts( ctx, key[1] )
+        if unknown_:
+            res.note( '%s.produce: constructs outside the modelled subset; producer side not decided against the spec' % key[1] )
+            continue
+        psrc = ctx.src( PARSER )
+        seen_ = set()
+        for p in P_:
+            if p.atoms in seen_:
+                continue
+            seen_.add( p.atoms )
+            if any( spec_seq_match( sseq, p.atoms, as_producer=True ) for sseq in sseqs ):
+                res.ok( psrc, L( p.trace[0][0] if p.trace and isinstance( p.trace[0][0], int ) else fn_.lineno ), 'class %s: produced layout [%s] is a spec layout' % ( key[1], show_seq( p )))
+            else:
+                res.bad( psrc, L( p.trace[0][0] if p.trace and isinstance( p.trace[0][0], int ) else fn_.lineno ), 'class %s: produced layout [%s] is not a spec layout' % ( key[1], show_seq( p )),
+                         'spec: %s - an independent peer decodes these bytes differently' % ' | '.join( '[%s]' % show_spec( q ) for q in sseqs ), func=key[1] + '.produce' )
     for cname, num in spec.REPLY_PRODUCERS:
         e = layouts.get(( cname, num ))
         if e is None or e['sel'] is None:
